@@ -9,6 +9,15 @@ REQ = ['RasnV.Corr.C04']
 ALPHABET = [-1, 0, 1, 5, 2 ** 32]
 KNOWN_PREC = 'C04-precedence'
 KNOWN_EXCEPT_MARKER = 'C04-except-marker'
+KNOWN_UNBOUNDED_PART = 'C04-unbounded-extensible-part'
+
+
+def unbounded_extensible_part(ms):
+    """one of the serial constraints is `((MIN..MAX), ...)` / `(MIN..MAX, ...)`: a marker on a part that bounds nothing"""
+    for elems, ops, marker in ms:
+        if marker and len(elems) == 1 and elems[0].get('k') == 'range' and elems[0].get('lo') is None and elems[0].get('hi') is None:
+            return True
+    return False
 
 
 def all_elems():
@@ -189,6 +198,8 @@ def judge_direct(ck, cases, results):
         text = serial_text(c['_ms'])
         if j in ser_nonmono and ck.is_known(KNOWN_PREC):
             ck.known_hit(KNOWN_PREC, {'constraint': text, 'impl': results[i].get('ok')})
+        elif unbounded_extensible_part(c['_ms']) and not (results[i].get('ok') or {}).get('ext') and ck.is_known(KNOWN_UNBOUNDED_PART):
+            ck.known_hit(KNOWN_UNBOUNDED_PART, {'constraint': text, 'impl': results[i].get('ok')})
         else:
             ck.violation('impl-violation', {k: v for k, v in c.items() if not k.startswith('_')}, constraint=text, impl=results[i],
                          meta_serial=c['_ms'], term=ser_terms[j],
